@@ -194,6 +194,16 @@ func VP_C17_pad() {
 	vpReach("C17/pad/done")
 }
 
+func vpIsUnicodeSpace(ch rune) bool {
+	switch {
+	case ch == ' ' || ch == '\t' || ch == '\n' || ch == '\v' || ch == '\f' || ch == '\r':
+		return true
+	case ch == 0x85 || ch == 0xA0 || ch == 0x1680 || (ch >= 0x2000 && ch <= 0x200A) || ch == 0x2028 || ch == 0x2029 || ch == 0x202F || ch == 0x205F || ch == 0x3000:
+		return true
+	}
+	return false
+}
+
 func vpIsSpaceASCII(c byte) bool {
 	return c == ' ' || c == '\t' || c == '\n' || c == '\v' || c == '\f' || c == '\r'
 }
@@ -202,10 +212,13 @@ func vpIsSpaceASCII(c byte) bool {
 func VP_C17_transform() {
 	S := vpParam("S")
 	s := vpSymString("s", S)
-	for i := 0; i < len(s); i++ {
-		vpAssume(s[i] < 0x80)
+	fn := vpChoice("fn", 5)
+	if fn != 4 {
+		for i := 0; i < len(s); i++ {
+			vpAssume(s[i] < 0x80)
+		}
 	}
-	switch vpChoice("fn", 4) {
+	switch fn {
 	case 0:
 		replace, ok := vpBuiltin("replace").(func(string, string, string) (string, error))
 		vpAssert("C17/transform/replace-present", ok)
@@ -242,6 +255,38 @@ func VP_C17_transform() {
 		}
 		got, err := trim(s)
 		vpAssert("C17/transform/trim-strips-surrounding-whitespace-only", err == nil && got == s[lo:hi])
+	case 4: // trim on arbitrary bytes: Unicode white space (as the statement's "whitespace") at either end
+		trim, ok := vpBuiltin("trim").(func(string) (string, error))
+		if !ok {
+			return
+		}
+		b := []byte(s)
+		lo, hi := 0, len(b)
+		for lo < hi {
+			ch, size := vpDecode(b[lo:hi])
+			if !vpIsUnicodeSpace(ch) {
+				break
+			}
+			lo += size
+		}
+		for hi > lo {
+			// last rune: try the 1-, 2- and 3-byte suffixes
+			cut := 0
+			for _, w := range []int{1, 2, 3} {
+				if hi-w >= lo {
+					ch, size := vpDecode(b[hi-w : hi])
+					if size == w && vpIsUnicodeSpace(ch) && (w == 1 || ch != 0xFFFD) {
+						cut = w
+					}
+				}
+			}
+			if cut == 0 {
+				break
+			}
+			hi -= cut
+		}
+		got, err := trim(s)
+		vpAssert("C17/transform/trim-strips-unicode-whitespace", err == nil && got == string(b[lo:hi]))
 	case 2, 3:
 		name := "lower"
 		if vpChoice("up", 2) == 1 {
